@@ -788,7 +788,7 @@ def _mk_known(eng, it, elems, rt):
     return Cont("iter:arr", "arrit#%d" % eng._hv(), Lin.const(len(elems)), None, (("elems", tuple(elems), 0),), rt if rt is not None else it.ty)
 
 
-@contract(r"(^|[ :<])(std|core)::iter::Iterator::(filter|map|count|fold|sum|for_each|rev|copied|cloned|enumerate)(::<.*>)?$|^<(std|core)::iter::(Filter|Map|Rev|Copied|Cloned|Enumerate)<.*> as (std|core)::iter::Iterator>::(count|fold|sum|for_each)$")
+@contract(r"(^|[ :<])(std|core)::iter::Iterator::(filter|map|count|fold|sum|for_each|rev|copied|cloned|enumerate|zip)(::<.*>)?$|^<(std|core)::iter::(Filter|Map|Rev|Copied|Cloned|Enumerate|Zip)<.*> as (std|core)::iter::Iterator>::(count|fold|sum|for_each)$")
 def c_known_iter_adaptors(eng, st, fr, f, args, site):
     """Iterator adaptors / consumers over an iterator whose elements are known (an array literal, a constant table):
     evaluated eagerly, element by element, with the closures analysed on each element."""
@@ -813,6 +813,17 @@ def c_known_iter_adaptors(eng, st, fr, f, args, site):
         return [(st, _mk_known(eng, it, vals, rt))]
     if op == "enumerate":
         return [(st, _mk_known(eng, it, [Struct(None, (int_const(i, 64, False), e)) for i, e in enumerate(elems)], rt))]
+    if op == "zip":
+        # the other side: an array value / an iterator with known elements (anything else is not modelled)
+        o = force(eng, st, args[1]) if len(args) > 1 and not isinstance(args[1], Ref) else (_known_iter(eng, st, args[1]) if len(args) > 1 else None)
+        if isinstance(o, Arr):
+            oe = list(o.elems)
+        elif isinstance(o, Cont) and o.kind == "iter:arr" and o.segs and o.segs[0][0] == "elems":
+            oe = list(o.segs[0][1][o.segs[0][2]:])
+        else:
+            return None
+        n = min(len(elems), len(oe))
+        return [(st, _mk_known(eng, it, [Struct(None, (a, b)) for a, b in zip(elems[:n], oe[:n])], rt))]
     if op == "sum":
         vals = [deref(eng, st, e) if isinstance(e, Ref) else e for e in elems]
         if not all(isinstance(v, Int) for v in vals):
@@ -1032,6 +1043,34 @@ def c_binary_search(eng, st, fr, f, args, site):
                 tvi = force(eng, live, tv)
                 if not isinstance(tvi, Int):
                     return None
+                bits = eng.bits_of(live, tvi) if (tvi.bits is not None or tvi.lin.single_sym()) else None
+                if bits is not None and all(x is not None for x in bits) and any(isinstance(x, tuple) and x[0] in ("b", "nb") for x in bits):
+                    # a value assembled from input bits (`(info >> 4) & 0x7f`): matched like a switchInt arm — the bits
+                    # are refined and the decision is a partition predicate
+                    hit = live.fork()
+                    try:
+                        for bi_, at in enumerate(bits):
+                            want = (ck >> bi_) & 1
+                            if at in (0, 1):
+                                if at != want:
+                                    raise Dead()
+                            elif at[0] == "b":
+                                hit.set_bit(at[1], at[2], want)
+                            elif at[0] == "nb":
+                                hit.set_bit(at[1], at[2], 1 - want)
+                        if ck >> len(bits):
+                            raise Dead()
+                        hit.add_fact(tvi.lin.sub(ck), eng)
+                        hit.add_fact(Lin.const(ck).sub(tvi.lin), eng)
+                        nm_ = eng._bits_name(bits)
+                        if eng._want_partition(fr, site.get("block"), "value", ck):
+                            hit.key = hit.key + (("val", nm_, ck),)
+                        outs.append((hit, Enum(rt, ((0, (int_const(i, 64, False),)),), "res")))
+                    except Dead:
+                        pass
+                    live = live.fork()
+                    live.notes = live.notes + (("excl", eng._bits_name(bits), (ck,)),)
+                    continue
                 cond = ("cmp", "Eq", tvi.lin, Lin.const(ck))
         hit = live.fork()
         try:
